@@ -23,6 +23,7 @@ def dyadic_weights(rs, k, bits=5):
     return [p / tot for p in parts]
 
 
+CLT_EM_INIT = 0.2   # probability that a generated Chow-Liu leaf is passed through BinaryCLT.em_init before it is used
 CLT_DET = 0.0     # probability that a generated Chow-Liu leaf gets exact 0/1 table entries (set by C01/C02 only)
 
 
@@ -42,6 +43,16 @@ def rand_clt(rs, scope, permute=True):
     with np.errstate(divide="ignore"):
         c = BinaryCLT(list(scope), tree=tree, params=np.log(params).tolist())
     c._verif_probs = params
+    if CLT_EM_INIT and rs.rand() < CLT_EM_INIT:
+        # a tree that went through the library's own random initialisation (em_init, as EM with random_init=True does): the tables
+        # it drew are put on a dyadic grid ROW BY ROW (each row stays exactly normalised; nothing is tied or repaired here) and
+        # written back in place, so that the tables of the case are exactly what the object holds
+        c.em_init(np.random.RandomState(int(rs.randint(1 << 30))))
+        pr = np.exp(np.asarray(c.params, dtype=np.float64))[:, :, 1]
+        pr = np.clip(np.round(pr * 64.0), 1, 63) / 64.0
+        probs = np.zeros((n, 2, 2)); probs[:, :, 1] = pr; probs[:, :, 0] = 1.0 - pr
+        c.params = np.log(probs).astype(np.float32)
+        c._verif_probs = probs
     return c
 
 
